@@ -348,7 +348,7 @@ func Run(r *fw.Run) {
 	q := r.Quick()
 	fw.Explore(r, "list-flags", fw.Full, func(c *fw.Ctx) Case {
 		d := c.Choose(len(dirs), "directory")
-		f := fw.Pick(c, []string{"txt", "json", "csv", "md", "dot"}, "-o")
+		f := fw.Pick(c, []string{"txt", "json", "csv", "md", "dot", "yaml"}, "-o") // the last one is not supported
 		exp := c.Choose(2, "--exposure") == 1
 		focus := fw.Pick(c, []string{"", "present", "absent", "near-miss-suffix", "near-miss-prefix"}, "--focusworkload")
 		fail := c.Choose(2, "--fail") == 1
@@ -366,7 +366,7 @@ func Run(r *fw.Run) {
 	fw.Explore(r, "diff-flags", fw.Full, func(c *fw.Ctx) Case {
 		d1 := c.Choose(len(dirs), "dir1")
 		d2 := c.Choose(len(dirs), "dir2")
-		f := fw.Pick(c, []string{"txt", "csv", "md", "dot"}, "-o")
+		f := fw.Pick(c, []string{"txt", "csv", "md", "dot", "json"}, "-o") // the last one is not supported by diff
 		fail := c.Choose(2, "--fail") == 1
 		verb := fw.Pick(c, []string{"", "-q", "-v"}, "verbosity")
 		toFile := c.Choose(2, "-f") == 1
